@@ -58,12 +58,15 @@ Oracle: after a fault in the removal/insertion phases the directory snapshot
     files that only ever lived in the limbo area is counted, not reported
     (finalize discards them).
 
-Finding (unchanged /repo, family `execbit-not-rolled-back`): the chmod of
-_set_executability is not journalled, so a failure later in the insertion
-phase rolls the renames back but leaves the new mode.  Model: jc = false,
-theorems execbit_witness / rollback_restores_modulo_exec; repro and tested
-patch in /var/tmp/imp-C13C14/ (with the patch the probe finds jc = true and
-rollback_restores applies).
+Finding of this check, now fixed in /repo (b4e82e9): the chmod of
+_set_executability was not journalled, so a failure later in the insertion
+phase rolled the renames back but left the new mode (model: jc = false,
+theorems execbit_witness / rollback_restores_modulo_exec).  With the fix the
+probe finds jc = true and rollback_restores applies; a recurrence ("restored
+names and contents but not the executable bit") is a plain VIOLATION.  The
+hand-made scenarios include mode changes that are the FIRST operation of the
+apply (journal entries older than every rename) - seeded change C14b dropped
+exactly their undo.
 
 Mutants this was built against (scratch worktrees): apply_deletions before
 the metadata update (the defect fixed by the fix: commit); rollback not
@@ -578,6 +581,12 @@ HAND = {
     "execbit-of-moved-file": [("chmod", "a"), ("mv", "a", "d/a"), ("mv", "z", "zz")],
     # mode change below a renamed directory
     "execbit-below-renamed-dir": [("chmod", "d/f"), ("mv", "d", "e"), ("mv", "z", "zz")],
+    # the mode change is the FIRST operation of the apply (no removal, no rename before
+    # it): reverting re-creates z after the chmod of a; the journal entry of the chmod
+    # is older than every rename
+    "execbit-first-then-new-file": [("chmod", "a"), ("rm", "z")],
+    # two mode changes before the first rename, the second one below a directory
+    "execbit-twice-first-then-new-file": [("chmod", "a"), ("chmod", "d/f"), ("rm", "z")],
 }
 
 
@@ -594,6 +603,8 @@ def _hand_scenario(wt, seed_tuple):
         if op[0] == "chmod":
             full = os.path.join(root, op[1])
             os.chmod(full, 0o644 if os.stat(full).st_mode & 0o100 else 0o755)
+        elif op[0] == "rm":
+            wt.remove([op[1]], keep_files=False, force=True)
         else:
             wt.rename_one(op[1], op[2])
     wt.commit("B")
@@ -1022,7 +1033,7 @@ def check_case(ctx, sc, ok_run, fault1, fault2, base_exc, fault_undo=None, fault
                 ctx.count("family:" + fam)
                 ctx.violation(case, "rollback after a fault at operation %d restored names and contents but not the "
                                     "executable bit changed by _set_executability: %r" % (fault1, _diff(P.after, P.before)),
-                              family=fam)
+                              family=None)
             else:
                 ctx.violation(case, "rollback did not restore the directory exactly after a fault at mover call %d: %r"
                               % (fault1, _diff(P.after, P.before)))
@@ -1094,10 +1105,9 @@ def check_sabotage(ctx, sc, ok_run, kind, rel):
                 p.startswith(sc["ctl"] + "/limbo/") for p in (exec_only_diff(P.before, P.after) or ["-"])):
             ctx.count("limbo-only-mode-drift")
         elif not clob and P.after != P.before:
-            fam = restore_family(P, P.before, P.after)
             ctx.violation(case, "the transform failed with %s (directory changed behind its back: %s %s), no rename "
                                 "clobbered anything, and rollback did not restore the directory: %r"
-                          % (raised, kind, rel, _diff(P.after, P.before)), family=fam)
+                          % (raised, kind, rel, _diff(P.after, P.before)))
         md = "old"
     elif P.where == "deletion":
         # a delete_any failed by itself (rmdir of a directory that got an unexpected child)
@@ -1366,8 +1376,7 @@ def run(ctx, nscen=None, maxfaults=None):
                     ctx.violation(case, "transform failed with %s and left the versioned paths changed" % ok["raised"])
             if P.before is not None and P.where == "rollback":
                 if P.after != P.before:
-                    ctx.violation(case, "rollback after %s did not restore the directory exactly" % ok["raised"],
-                                  family=restore_family(P, P.before, P.after))
+                    ctx.violation(case, "rollback after %s did not restore the directory exactly" % ok["raised"])
                 ops = ops_of(P.log)
                 errs = [l[4] for l in P.log if l[4] and not (l[0] == "r" and l[4].endswith(":ENOENT"))]
                 cases.append(case)
